@@ -79,6 +79,10 @@ def every_edge_kind(with_loopy: bool = False):
     outs["csr_all"] = mat2 @ u
     outs["send"] = staple_distributed_send(u, dest_rank=1, comm_tag=5, stapled_to=u)
     outs["recv"] = make_distributed_recv(src_rank=1, comm_tag=6, shape=(n, 4), dtype=F64)
+    # a send stapled to a stored-tagged array (the holder inherits the tags of what it passes through)
+    from pytato.tags import ImplStored
+    outs["send_stored"] = staple_distributed_send(u * 3, dest_rank=2, comm_tag=8,
+                                                   stapled_to=(u + 2).tagged(ImplStored()))
 
     def f(a, b):
         return {"o1": a + b, "o2": a * 2}
